@@ -244,7 +244,7 @@ func ruleSIBcap(w *World, r *Report) {
 }
 
 func ruleGRDkeep(w *World, r *Report) {
-	r.Doc("GRD-keep", "selectNeighbors returns the candidate list unchanged whenever it has no more entries than the cap (nothing is pruned below the cap), and the layer search raises its working ef to at least k before it starts", 2)
+	r.Doc("GRD-keep", "selectNeighbors returns the candidate list unchanged whenever it has no more entries than the cap (nothing is pruned below the cap), and the layer search raises its working ef to at least k before it starts", 1)
 	fi := w.Func(hnswPkg, "Index.selectNeighbors")
 	if fi == nil {
 		r.Und("GRD-keep", "anchor:Index.selectNeighbors", "", "anchor lost")
@@ -336,7 +336,7 @@ func ruleGRDkeep(w *World, r *Report) {
 // ruleSIBsorted: selectNeighbors walks its candidates from nearest to farthest; every caller must hand it a
 // list that is sorted by distance — a layer-search result, or a slice that was sorted after its last append.
 func ruleSIBsorted(w *World, r *Report) {
-	r.Doc("SIB-sorted", "every call of selectNeighbors is given candidates ordered by distance: the result of searchLayerUnlocked, or a slice value on which a sort (sort.Slice / slices.SortFunc / sort.Sort) was executed on every path to the call — a later append makes a new slice value and needs a new sort", 7)
+	r.Doc("SIB-sorted", "every call of selectNeighbors is given candidates ordered by distance: the result of searchLayerUnlocked, or a slice value on which a sort (sort.Slice / slices.SortFunc / sort.Sort) was executed on every path to the call — a later append makes a new slice value and needs a new sort", 5)
 	n := 0
 	isSortOf := func(v ssa.Value) func(ssa.Instruction) bool {
 		return func(in ssa.Instruction) bool {
